@@ -171,6 +171,9 @@ def query_traversal(node, callback, is_table=False, is_target=False, parent_quer
             node_out = query_traversal(arg, callback, parent_query=parent_query) or arg
             array.append(node_out)
         node.args = array
+        if isinstance(node, (ast.Exists, ast.NotExists)):
+            # keep the second reference to the sub-query in step with args
+            node.query = array[0]
         if isinstance(node, ast.Function) and node.from_arg is not None:
             node_out = query_traversal(node.from_arg, callback, parent_query=parent_query)
             if node_out is not None:
